@@ -71,6 +71,13 @@ let string_of_coq (s : Tsmodel.string) : str =
   let b = Buffer.create 16 in
   List.iter (fun x -> Buffer.add_char b (Char.chr (int_of_byte x))) (list_byte_of_string s);
   Buffer.contents b
+let ascii_of_char (c : char) : ascii =
+  let n = Char.code c in
+  let b k = (n lsr k) land 1 = 1 in
+  Ascii (b 0, b 1, b 2, b 3, b 4, b 5, b 6, b 7)
+let coq_of_string (s : str) : Tsmodel.string =
+  let rec go i acc = if i < 0 then acc else go (i - 1) (String (ascii_of_char s.[i], acc)) in
+  go (String.length s - 1) EmptyString
 let ascii_of_bytes (l : bytes) = String.concat "" (List.map (fun x -> String.make 1 (Char.chr (int_of_byte x))) l)
 
 let split c s = if s = "-" || s = "" then [] else String.split_on_char c s
@@ -248,6 +255,46 @@ let () =
     | ["U2B"; z] ->
       (match uint_to_bytes fl2_oracle (z_of_str z) with
        | Some b -> print_string ("= ok " ^ hex_of_bytes b ^ "\n") | None -> print_string "= err OverflowError\n")
+    | ["DEC"; h] ->
+      (* decompile: listing lines separated by '|' (leading spaces kept) *)
+      (match decompile fl2_oracle (bytes_of_hex h) with
+       | Some ls -> print_string ("= ok " ^ String.concat "|" (List.map string_of_coq ls) ^ "\n")
+       | None -> print_string "= none\n")
+    | "ASM" :: toks ->
+      (* tokens of a listing in the decompiler's own format -> encode (parse_listing toks) *)
+      (match parse_listing fl2_oracle (List.map coq_of_string toks) with
+       | Some p -> print_string ("= ok " ^ hex_of_bytes (encode p) ^ " " ^ (if wf_prog p then "wf" else "notwf") ^ "\n")
+       | None -> print_string "= none\n")
+    | ["REG"; impl; known; ifs; als; ops] ->
+      let ints s = List.map int_of_string (split ',' s) in
+      let pairs s = List.map (fun e -> match String.split_on_char ':' e with
+          | [a; b] -> (int_of_string a, b) | _ -> failwith "pair") (split ';' s) in
+      let matrix = List.map (fun (k, v) -> (k, ints (String.concat "," (String.split_on_char '.' v)))) (pairs impl) in
+      let implements k i = (match List.assoc_opt (int_of_nat k) matrix with Some l -> List.mem (int_of_nat i) l | None -> false) in
+      let kn = ints known in
+      let known_op o = List.mem (int_of_nat o) kn in
+      let r0 = reg_init (List.map nat_of_int (ints ifs))
+                 (List.map (fun (a, o) -> (nat_of_int a, nat_of_int (int_of_string o))) (pairs als)) in
+      let n = nat_of_int in
+      let parse_op t = (match String.split_on_char '.' t with
+          | ["ap"; a; b] -> AddPlugin (n (int_of_string a), n (int_of_string b))
+          | ["rp"; a; b] -> RemovePlugin (n (int_of_string a), n (int_of_string b))
+          | ["rs"; a] -> ResetPlugins (n (int_of_string a))
+          | ["ac"; a; b] -> AddContract (n (int_of_string a), n (int_of_string b))
+          | ["rc"; a] -> RemoveContract (n (int_of_string a))
+          | ["ai"; a] -> AddIface (n (int_of_string a))
+          | ["ri"; a] -> RemoveIface (n (int_of_string a))
+          | ["aa"; a; b] -> AddAlias (n (int_of_string a), n (int_of_string b))
+          | _ -> failwith ("rop " ^ t)) in
+      let (r, outs) = run_trace implements known_op r0 (List.map parse_op (split ',' ops)) in
+      let il l = String.concat "." (List.map (fun x -> string_of_int (int_of_nat x)) l) in
+      print_string ("= " ^ String.concat " | " [
+        String.concat ";" (List.map (fun (sc, l) -> string_of_int (int_of_nat sc) ^ ":" ^ il l) r.r_plugins);
+        String.concat ";" (List.map (fun (a, b) -> string_of_int (int_of_nat a) ^ ":" ^ string_of_int (int_of_nat b)) r.r_contracts);
+        il r.r_ifaces;
+        String.concat ";" (List.map (fun (a, b) -> string_of_int (int_of_nat a) ^ ":" ^ string_of_int (int_of_nat b)) r.r_aliases);
+        String.concat "" (List.map (fun o -> match o with ROk -> "o" | RErr -> "e") outs);
+        il (run_plugins_of r [] (n 0)) ] ^ "\n")
     | ["B2I"; h] ->
       (match bytes_to_int (bytes_of_hex h) with
        | Some z -> print_string ("= ok " ^ str_of_z z ^ "\n") | None -> print_string "= err ValueError\n")
